@@ -97,6 +97,12 @@ var _ = late(func() {
 
 	// ---- C11 ------------------------------------------------------------------------------------------------------------
 	properties["C11"].Rules = append(properties["C11"].Rules,
+		&Rule{ID: "C11.who-may-cancel", Floor: 1,
+			Clause: "BatchFunc's background context is cancelled only by batchStream.Close: a goroutine that cancels it (e.g. the reader on a source error) makes the batcher's flush select see Done() and drop the items that are still pending, so the error overtakes them",
+			Run:    func(c *Ctx, r *R) { ruleWhoMayCancel(c, r, "stream.BatchFunc", "batchStream", "bgCancel", false) }},
+		&Rule{ID: "C11.source-closed", Floor: 1,
+			Clause: "the source handed to Batch / BatchFunc is owned by the reader goroutine, which defers its Close in its entry block (same rule as C09.own-param restricted to Batch): Close of the batch stream returns only after the source was closed, on every exit of the reader",
+			Run:    subRule(ruleOwnParams, "stream.BatchFunc|", "stream.Batch|")},
 		&Rule{ID: "C11.cancel-arm-exits", Floor: 1,
 			Clause: "in BatchFunc's goroutines the arm of a blocking select that fires on the cancelled background context leaves the loop (the select is not reachable again from it): a `break` that only leaves the select spins on a source that ignores the context and Close never returns",
 			Run:    ruleCancelArmExits},
@@ -108,9 +114,15 @@ var _ = late(func() {
 // ---------------------------------------------------------------------------------------------------------------------------
 
 func ruleMergeWhoMayCancel(c *Ctx, r *R) {
-	bi := bgAnalyse(c, "stream.Merge")
+	ruleWhoMayCancel(c, r, "stream.Merge", "mergeStream", "cancel", true)
+}
+
+// ruleWhoMayCancel: the context that anchor creates for its goroutines is cancelled only by wrapper.Close - and, when
+// winnerMayCancel, by the goroutine that won the first-error CAS.
+func ruleWhoMayCancel(c *Ctx, r *R, anchor, wrapper, cancelField string, winnerMayCancel bool) {
+	bi := bgAnalyse(c, anchor)
 	if bi == nil || bi.cancel == nil {
-		r.undecided("stream.Merge|cancel", token.NoPos, "Merge's cancel function not found")
+		r.undecided(anchor+"|cancel", token.NoPos, "the cancel function of "+anchor+" not found")
 		return
 	}
 	worker := map[*ssa.Function]bool{}
@@ -128,7 +140,7 @@ func ruleMergeWhoMayCancel(c *Ctx, r *R) {
 		}
 		// the captured cancel variable of Merge, or the cancel field of mergeStream
 		if ld, ok := call.Call.Value.(*ssa.UnOp); ok && ld.Op == token.MUL {
-			if fa, ok := ld.X.(*ssa.FieldAddr); ok && isNamedType(fa.X.Type(), "stream", "mergeStream") && fieldName(fa.X.Type(), fa.Field) == "cancel" {
+			if fa, ok := ld.X.(*ssa.FieldAddr); ok && isNamedType(fa.X.Type(), "stream", wrapper) && fieldName(fa.X.Type(), fa.Field) == cancelField {
 				return true
 			}
 			// a field of a helper struct built in Merge that was given Merge's cancel function (closer.cancel)
@@ -158,7 +170,7 @@ func ruleMergeWhoMayCancel(c *Ctx, r *R) {
 	}
 	for _, fn := range c.funcsOfPkg("stream") {
 		root := rootFn(fn)
-		if root != bi.fn && !worker[fn] && !(root.Signature.Recv() != nil && isNamedType(root.Signature.Recv().Type(), "stream", "mergeStream")) {
+		if root != bi.fn && !worker[fn] && !(root.Signature.Recv() != nil && isNamedType(root.Signature.Recv().Type(), "stream", wrapper)) {
 			continue
 		}
 		instrs(fn, func(b *ssa.BasicBlock, i int, in ssa.Instruction) {
@@ -170,8 +182,10 @@ func ruleMergeWhoMayCancel(c *Ctx, r *R) {
 			name := c.nameOf(fn)
 			key := name + "|cancel#" + itoa(n)
 			switch {
-			case strings.HasSuffix(name, "mergeStream.Close"):
+			case strings.HasSuffix(name, wrapper+".Close"):
 				r.discharged(key, call.Pos(), "Close cancels the workers")
+			case worker[fn] && !winnerMayCancel:
+				r.violated(key, call.Pos(), "a background goroutine of "+anchor+" cancels the shared context itself: the peer that still holds undelivered items sees Done() and drops them, so an error (or the end) overtakes the items that preceded it; only Close may cancel")
 			case worker[fn]:
 				won := false
 				for _, g := range guardsOf(b) {
@@ -703,6 +717,7 @@ var _ = late(func() {
 	properties["C01"].Rules = append(properties["C01"].Rules,
 		&Rule{ID: "C01.children-one-more", Floor: 4, Clause: "same rule as C03.children-one-more: a node with n keys has n+1 children wherever keys and children are shifted together (a lost child pointer makes a whole subtree - keys that were never deleted - unreachable)", Run: ruleChildrenOneMore},
 		&Rule{ID: "C01.reseek-direction", Floor: 6, Clause: "same rule as C02.reseek-direction: range iterators that find the tree changed re-seek inclusively to the pending key, so every present entry of the range is still yielded once", Run: ruleReseekDirection},
+		&Rule{ID: "C01.cursor-validated", Floor: 8, Clause: "same rule as C02.cursor-validated: the iterators behind Range / RangeReverse read the cursor's slot only after lost() was found false (or a re-seek) and the node was re-checked for nil; lost() reads keys[i] only under curr != nil and i < n (a cleared slot can equal a zero-valued key): otherwise a range yields a zero entry, skips one, or panics at the end of the range", Run: ruleCursorValidated},
 		&Rule{ID: "C01.kv-carried-together", Floor: 1, Clause: "loop-carried key and value variables (k/v, key/value) are updated on the same edges: a loop that replaces the key it carries but keeps the old value pairs a key with another key's value", Run: ruleKVCarriedTogether})
 	properties["C14"].Rules = append(properties["C14"].Rules,
 		&Rule{ID: "C14.normalise-first", Floor: 2, Clause: "MapIterator / MapStream use the raw parallelism argument only to default it (parallelism <= 0 → GOMAXPROCS): every other use - in particular the bufferSize >= parallelism clamp - sees the defaulted value, otherwise a non-positive parallelism leaves bufferSize <= 0 and the dispatcher waits forever", Run: ruleNormaliseFirst})
